@@ -661,5 +661,62 @@ def mon_C04(ops, results):
     return out
 
 
-MONITORS = {"C04": mon_C04, "C01": mon_C01, "C02": mon_C02, "C05": mon_C05, "C06": mon_C06, "C07": mon_C07, "C08": mon_C08, "C09": mon_C09,
+MAX_DELTA = 60 * 60 * 24 * 30
+
+
+def mon_C14(ops, results):
+    """the timer covers every stored expiry; a sweep at time N tombstones exactly the documents with 0 < exp <= N (deletion
+    event included) and leaves the others alone; the expiry in force is the one the last write/touch set."""
+    out, now = [], 1700000000
+    for i, name, pos, args, res, last, feeds in Trace(ops, results).steps():
+        if name == "now":
+            now = int(arg(args, "s", str(now)))
+        if name == "expstate" and res.startswith("r=ok"):
+            nxt = int(res_fields(res).get("next", "0"))
+            # readbacks between the previous mutation and this line describe the current rows
+            cur = dict(last)
+            for (c, k), d in cur.items():
+                if absent(d):
+                    continue
+                e = int(d.get("row.exp", "0"))
+                if e > 0 and (nxt == 0 or nxt > e):
+                    out.append(viol("C14.timer-armed-no-later-than-any-expiry", i, "%s/%s expires at %d but the timer is %s" % (c, k, e, "not armed" if nxt == 0 else "armed for %d" % nxt)))
+        if name == "fire":
+            rbs, drains = following(ops, results, i)
+            for key, after in rbs.items():
+                before = last.get(key)
+                if before is None or absent(before):
+                    continue
+                e = int(before.get("row.exp", "0"))
+                if 0 < e <= now:
+                    if absent(after) or after.get("row.v") != "~" or after.get("row.exp") != "0":
+                        out.append(viol("C14.due-documents-are-tombstoned", i, "%s/%s was due at %d (now %d) but after the sweep: %s" % (key[0], key[1], e, now, row_of(after))))
+                    for fid, f in feeds.items():
+                        if not f["dump"] and f["coll"] == key[0] and fid in drains:
+                            if not any(ev.get("k") == key[1] and ev.get("op") == "del" for ev in drains[fid]):
+                                out.append(viol("C14.expiry-produces-deletion-event", i, "no deletion event for expired %s/%s on feed %s" % (key[0], key[1], fid)))
+                elif row_of(before) != row_of(after):
+                    out.append(viol("C14.not-due-documents-untouched", i, "%s/%s (exp %d, now %d) changed by the sweep" % (key[0], key[1], e, now)))
+        if name in ("set", "add", "touch", "gat", "wcas", "incr", "delete", "remove") and len(pos) >= 2 and not res.startswith("r=panic"):
+            rf = res_fields(res)
+            if not succeeded(name, rf):
+                continue
+            rbs, _ = following(ops, results, i)
+            after, before = rbs.get((pos[0], pos[1])), last.get((pos[0], pos[1]))
+            if after is None or absent(after):
+                continue
+            e = int(arg(args, "exp", "0"))
+            want = e + now if 0 < e <= MAX_DELTA else e
+            if name in ("delete", "remove"):
+                want = 0
+            if name == "wcas" and arg(args, "v") is None:
+                continue
+            if name == "set" and arg(args, "pe", "0") != "0" and before is not None and not absent(before):
+                want = int(before.get("row.exp", "0"))
+            if int(after.get("row.exp", "0")) != want:
+                out.append(viol("C14.expiry-in-force", i, "%s with exp=%d at %d stored expiry %s, expected %d" % (name, e, now, after.get("row.exp"), want)))
+    return out
+
+
+MONITORS = {"C14": mon_C14, "C04": mon_C04, "C01": mon_C01, "C02": mon_C02, "C05": mon_C05, "C06": mon_C06, "C07": mon_C07, "C08": mon_C08, "C09": mon_C09,
             "C11": mon_C11, "C17": mon_C17}
